@@ -555,7 +555,14 @@ class SubtypeUnpackerBuilder(DiscriminatedUnionUnpackerBuilder):
     def _get_variants_attr(self, spec: ValueSpec) -> str:
         if self._variants_attr is None:
             assert self.discriminator.include_subtypes
-            self._variants_attr = "__mashumaro_subtype_variants__"
+            # a registered variant owns the method of this format only
+            if spec.builder.format_name == "dict":
+                self._variants_attr = "__mashumaro_subtype_variants__"
+            else:
+                self._variants_attr = (
+                    "__mashumaro_subtype_variants_"
+                    f"{spec.builder.format_name}__"
+                )
         return self._variants_attr
 
 
